@@ -19,6 +19,28 @@ def _plan(sql):
     return planexec.plan_case(sql)
 
 
+def classify(q):
+    """(shape, kind) of an original query in semantic form -- the input-side coordinate of a finding."""
+    if q.get('q') == 'setop':
+        return 'setop', q['op'] + (' all' if q.get('all') else '')
+    f = q.get('from', {})
+    if q.get('ctes'):
+        return 'cte', f.get('kind', '-')
+    if f.get('f') == 'join':
+        l = f['l']
+        if l.get('f') == 'join':
+            return 'join3', l.get('kind', '-')
+        if l.get('f') == 'sub' or f['r'].get('f') == 'sub':
+            return 'nested', f.get('kind', '-')
+        return 'join2', f.get('kind', '-')
+    txt = json.dumps(q.get('where', {}))
+    if '"insub"' in txt:
+        return 'insub', 'not in' if '"neg": true' in txt else 'in'
+    if '"scalar"' in txt:
+        return 'scalar', '-'
+    return 'other', '-'
+
+
 def run(ctx):
     thorough = ctx.tier == 'thorough'
     rng = random.Random(ctx.seed + 8)
@@ -70,8 +92,8 @@ def run(ctx):
                 undec += 1
                 continue
             asg = next(a for vv, a in outcomes if vv == v)
-            rec = c['rec']
-            ctx.violation('%s:%s:%s' % (v, rec.get('shape'), rec.get('kind', rec.get('op', '-'))),
+            shape, kind = classify(c['plan']['orig'])
+            ctx.violation('%s:%s:%s' % (v, shape, kind),
                           'carrying out the plan does not return what the original query returns on some database',
                           {'sql': c['sql'], 'tables': c['plan']['tables'], 'database': asg, 'plan_steps': c['kinds'],
                            'fetches': c['fetch_sql']}, pin=(c['sql'], v))
